@@ -173,6 +173,8 @@ def check (pid : String) (j : Json) : Except String Verdict := do
   let mut idx := 0
   let mut accepted := 0
   let mut idleSince : List (RType × String × Nat) := []   -- C19: last lookup (or caching) time per entry
+  -- C02: the version of the last ACCEPTED response per type, kept by the script of the history (not read from the client)
+  let mut lastAcc : List (RType × String) := RType.all.map (fun rt => (rt, (prev.ver rt).1))
   for st in steps.toList do
     idx := idx + 1
     let kind := jStrD st "o" "?"
@@ -237,6 +239,18 @@ def check (pid : String) (j : Json) : Except String Verdict := do
       if pid = "C03" then
         r := r.specFail (c03change prev o (if missed then some (rt, n) else none))
       if pid = "C04" && wasClosed then r := r.specFail (c04stopped o)
+    | "evict" =>
+      -- one firing iteration of the cleaner (verif hook: the body without the age test; the script moved the clock)
+      let rt ← match rtOfStr (jStrD st "rt" "?") with | some t => pure t | none => throw "evict: type"
+      let n ← jStr st "n"
+      r := r.op cfg (.evict rt n now) what
+      r := r.drain cfg
+      r := r.compare o oj uni what
+      if pid = "C01" then r := r.specFail (c01 cfg r.rops uni o)
+      if pid = "C03" then
+        r := r.specFail (c03change prev o none (some (rt, n)))
+        if sendOk && !(o.reqs.any (fun q => q.rt = rt && !q.names.contains n)) then
+          r := r.specFail (some s!"C03.each_change_requested: {rtStr rt}/{n} was evicted and withdrawn from the interest set, but no request without it followed")
     | "outage" =>
       -- stream creation failed for whole reconnect budgets (no state change in the model: the receiver retries), then
       -- succeeded: one reconnect
@@ -363,12 +377,41 @@ def check (pid : String) (j : Json) : Except String Verdict := do
       r := r.op cfg (.senderSend false) s!"{what}: the stalled Send (completes when the connection resumes)"
       r := r.op cfg (.push resp now) what
       r := { r with issued := r.issued ++ [(o.streams, nonce)] }
+      if resp.decodes then lastAcc := (lastAcc.filter (fun e => e.1 ≠ rt)) ++ [(rt, v)]
+      -- a second response of the same type while the first acknowledgement is still queued
+      let second : Option (Resp × String × String) ← match jObj? st "second" with
+        | some sj => do
+          let v2 ← jStr sj "v"
+          let n2 ← jStr sj "nonce"
+          pure (some ({ rt := rt, version := v2, nonce := n2, slots := ← parseSlots sj }, v2, n2))
+        | none => pure none
+      if let some (resp2, v2, n2) := second then
+        r := r.op cfg (.push resp2 now) what
+        r := { r with issued := r.issued ++ [(o.streams, n2)] }
+        if resp2.decodes then lastAcc := (lastAcc.filter (fun e => e.1 ≠ rt)) ++ [(rt, v2)]
       for n in (← jStrList st "names") do
         r := r.op cfg (.touch brt n now) what
         r := r.op cfg (.subscribe brt n) what
       r := r.drain cfg
       r := r.compare o oj uni what
-      if pid = "C02" then r := r.specFail (c02stalled prev o rt v nonce resp.decodes)
+      if pid = "C02" then
+        match second with
+        | none => r := r.specFail (c02stalled prev o rt v nonce resp.decodes)
+        | some (resp2, v2, n2) =>
+          -- exactly two requests of the type, in order: the acknowledgement of the first response as it deserved it, then
+          -- that of the second
+          let qs := o.reqs.filter (fun q => q.rt = rt)
+          let lastOk := (prev.ver rt).1
+          let want1 : String × String × Bool := (if resp.decodes then v else lastOk, nonce, !resp.decodes)
+          let base2 := if resp.decodes then v else lastOk
+          let want2 : String × String × Bool := (if resp2.decodes then v2 else base2, n2, !resp2.decodes)
+          match qs with
+          | [q1, q2] =>
+            if (q1.version, q1.nonce, q1.err) ≠ want1 then
+              r := r.specFail (some s!"C02.ack_exact: the first of two responses accepted/rejected back to back was acknowledged with (version, nonce, error detail) = {(q1.version, q1.nonce, q1.err)}, expected {want1}: the queued acknowledgement was overwritten by the next one")
+            else if (q2.version, q2.nonce, q2.err) ≠ want2 then
+              r := r.specFail (some s!"C02.ack_exact: the second of two responses was acknowledged with {(q2.version, q2.nonce, q2.err)}, expected {want2}")
+          | l => r := r.specFail (some s!"C02.ack_exact: two responses of a type were handled while the connection was stalled; {l.length} requests of that type reached the control plane, expected exactly two")
     | "burst" =>
       -- lookups of distinct uncached names while the connection is stalled; observed after it resumed
       let rt ← match rtOfStr (jStrD st "rt" "?") with | some t => pure t | none => throw "burst: type"
@@ -400,7 +443,9 @@ def check (pid : String) (j : Json) : Except String Verdict := do
       r := { r with issued := r.issued ++ [(o.streams, nonce)] }
       r := r.drain cfg
       r := r.compare o oj uni what
-      if resp.decodes && (prev.interest rt).isSome then accepted := accepted + 1
+      if resp.decodes && (prev.interest rt).isSome then
+        accepted := accepted + 1
+        lastAcc := (lastAcc.filter (fun e => e.1 ≠ rt)) ++ [(rt, v)]
       -- C19 bookkeeping: a newly cached entry is idle since it was cached
       for e in o.cache rt do
         if (lookupC prev rt e.1).isNone && !(idleSince.any (fun x => x.1 = rt && x.2.1 = e.1)) then
@@ -462,6 +507,12 @@ def check (pid : String) (j : Json) : Except String Verdict := do
       let stale := o.closed || !sendOk || r.failing.contains o.streams
       if !stale then r := r.specFail (c03quiescent o (fun rt => (r.lastOnLive.find? (fun e => e.1 = rt)).map (·.2)))
     if pid = "C04" then r := r.specFail (c04nonces o r.issued)
+    if pid = "C02" then
+      -- the acknowledged version of a type is the version of the last response of that type that was accepted — whatever
+      -- else happened since (lookups, evictions, rejected responses, stream failures)
+      match lastAcc.filter (fun e => (o.ver e.1).1 ≠ e.2) with
+      | (rt, v) :: _ => r := r.specFail (some s!"C02.version_is_last_accepted: after {what} the client holds version '{(o.ver rt).1}' for {rtStr rt}; the last accepted response of that type carried '{v}' (a later rejection would be reported to the control plane against the wrong version)")
+      | [] => pure ()
     prev := o
   let nt := match pid with
     | "C01" => accepted ≥ 2
